@@ -39,6 +39,9 @@ type RunOpts struct {
 	Answer func(k int, pre bool) Answer
 	// Full keeps stack/memory in the event lines.
 	Full bool
+	// Modes lists the join-point switch (EVM.IsExecuteJP) of each consecutive top-level invocation on the same EVM
+	// (nil: one invocation with the scenario's JPOn).
+	Modes []bool
 }
 
 type Run struct {
@@ -54,6 +57,7 @@ type Run struct {
 	Panic    string
 	// balances seen by the Transfer wrapper: from-before, to-before, from-after, to-after, with the shadow index
 	Transfers []RTransfer
+	Invs      []RInv
 }
 
 type RTransfer struct {
@@ -82,6 +86,7 @@ func Exec(s *Scn, o RunOpts) *Run {
 			boundID[FrameAddr(f.ID)] = f.ID
 		}
 	})
+	jpOn := s.JPOn
 	nextAnswer := func(pre bool) Answer {
 		a := Answer{}
 		if o.Answer != nil {
@@ -95,7 +100,7 @@ func Exec(s *Scn, o RunOpts) *Run {
 		Bound: func(contract common.Address, cut atypes.PointCut) ([]*atypes.AspectCode, error) {
 			r.Provider = append(r.Provider, fmt.Sprintf("%x %s", contract[:], cut))
 			id, ok := boundID[contract]
-			if !s.JPOn || !ok || s.Bound&(1<<uint(id)) == 0 {
+			if !jpOn || !ok || s.Bound&(1<<uint(id)) == 0 {
 				return nil, nil
 			}
 			pre := cut == atypes.PRE_CONTRACT_CALL_METHOD
@@ -190,9 +195,37 @@ func Exec(s *Scn, o RunOpts) *Run {
 	env := world.NewA(cs, world.AOpts{Tracer: rec, Host: host, Transfer: transfer, JPOff: false})
 	r.Env = env
 	rec.Refund = nil
-	ret, _, gas, err, p := env.Call(cs)
-	r.Ret, r.Gas, r.Err, r.Panic = ret, gas, err, p
+	modes := o.Modes
+	if len(modes) == 0 {
+		modes = []bool{s.JPOn}
+	}
+	for _, on := range modes {
+		if on {
+			env.EVM.AspectCall()
+		} else {
+			env.EVM.CloseAspectCall()
+		}
+		jpOn = on
+		inv := RInv{JPOn: on, EventStart: len(rec.All), FiringStart: len(r.Firings), AnswerStart: len(r.Answers), TransferStart: len(r.Transfers)}
+		ret, _, gas, err, p := env.Call(cs)
+		inv.Ret, inv.Gas, inv.Err, inv.Panic = ret, gas, err, p
+		r.Invs = append(r.Invs, inv)
+		r.Ret, r.Gas, r.Err, r.Panic = ret, gas, err, p
+		if p != "" {
+			break
+		}
+	}
 	return r
+}
+
+// RInv is one top-level invocation of a run.
+type RInv struct {
+	JPOn                                                bool
+	Ret                                                 []byte
+	Gas                                                 uint64
+	Err                                                 error
+	Panic                                               string
+	EventStart, FiringStart, AnswerStart, TransferStart int
 }
 
 // Events returns the interleaved event log (EVM events, Aspect enter/exit, stub executions).
